@@ -71,6 +71,19 @@ bool g_threads_used = false;
 thread_local int t_id = 0;
 pthread_t g_pt[kMaxThreads];
 
+// model clock + exact futex timeouts (rt option VF_FUTEX_TIMEOUT_EXACT, exported to the replay's
+// environment): schedule entries 32+k / 64+k mean "parked thread k returns spuriously / times out"
+int64_t g_clock_ns = 0;
+int g_wake_kind[kMaxThreads];      // 0 woken by FUTEX_WAKE, 1 spurious (EINTR), 2 timeout
+int64_t g_deadline[kMaxThreads];
+bool g_timed[kMaxThreads];
+int64_t g_last_ts[kMaxThreads];
+bool futex_exact() {
+  static int v = -1;
+  if (v < 0) { const char* e = getenv("VF_FUTEX_TIMEOUT_EXACT"); v = (e && *e && *e != '0') ? 1 : 0; }
+  return v == 1;
+}
+
 bool runnable(int t) {
   return g_started[t] && !g_finished[t] && (g_parked_on[t] == nullptr || g_woken[t]);
 }
@@ -86,6 +99,16 @@ void report_deadlock() {
 int pick_next(int me, bool me_can_run) {
   while (g_pos < g_sched.size()) {
     int t = g_sched[g_pos];
+    if (t >= 32 && t < 96 && futex_exact()) {  // spurious return / timeout of a parked futex waiter
+      int tt = t & 31;
+      if (tt < g_nthreads && g_parked_on[tt] != nullptr && !g_woken[tt] && !g_finished[tt]) {
+        g_woken[tt] = true;
+        g_wake_kind[tt] = t >= 64 ? 2 : 1;
+        if (t >= 64 && g_timed[tt] && g_clock_ns < g_deadline[tt]) g_clock_ns = g_deadline[tt];
+      }
+      g_pos++;
+      continue;
+    }
     if (t >= 0 && t < g_nthreads && runnable(t)) return t;
     if (t >= g_nthreads || t < 0 || g_finished[t]) { g_pos++; continue; }  // stale entry
     break;  // scheduled thread is parked and not woken: fall back
@@ -189,6 +212,20 @@ long __wrap_syscall(long nr, long a1, long a2, long a3, long a4, long a5, long a
   vf_yield(-1);
   pthread_mutex_lock(&g_mu);
   if (op == 0) {
+    g_timed[me] = false;
+    if (a4 && futex_exact()) {
+      const int64_t* ts = (const int64_t*)a4;
+      if (ts[0] < 0 || ts[1] < 0 || ts[1] >= 1000000000) {
+        g_last_ts[me] = -1;
+        pthread_mutex_unlock(&g_mu);
+        errno = EINVAL;
+        return -1;
+      }
+      int64_t rel = ts[0] > (INT64_MAX - ts[1]) / 1000000000 ? INT64_MAX : ts[0] * 1000000000 + ts[1];
+      g_last_ts[me] = rel;
+      g_deadline[me] = rel > INT64_MAX - g_clock_ns ? INT64_MAX : g_clock_ns + rel;
+      g_timed[me] = true;
+    }
     if (__atomic_load_n(addr, __ATOMIC_SEQ_CST) != (int)a3) {
       pthread_mutex_unlock(&g_mu);
       errno = EAGAIN;
@@ -196,6 +233,7 @@ long __wrap_syscall(long nr, long a1, long a2, long a3, long a4, long a5, long a
     }
     g_parked_on[me] = addr;
     g_woken[me] = false;
+    g_wake_kind[me] = 0;
     int nxt = pick_next(me, false);
     if (nxt < 0) report_deadlock();
     pass_baton(nxt);
@@ -208,7 +246,13 @@ long __wrap_syscall(long nr, long a1, long a2, long a3, long a4, long a5, long a
       pthread_cond_wait(&g_cv, &g_mu);
     }
     g_parked_on[me] = nullptr;
+    int kind = g_wake_kind[me];
+    g_wake_kind[me] = 0;
     pthread_mutex_unlock(&g_mu);
+    if (kind) {
+      errno = kind == 2 ? ETIMEDOUT : EINTR;
+      return -1;
+    }
     return 0;
   }
   if (op == 1) {
@@ -332,6 +376,12 @@ void vf_check(bool c, const char* label) {
     if (!getenv("VF_KEEP_GOING")) _exit(1);
   }
 }
+int64_t vf_clock_peek() { return g_clock_ns; }
+void vf_clock_advance(uint64_t d) {
+  if (d > (uint64_t)(INT64_MAX - g_clock_ns)) { fflush(stdout); _exit(77); }
+  g_clock_ns += (int64_t)d;
+}
+int64_t vf_futex_last_timeout_ns() { return g_last_ts[t_id]; }
 void vf_observe(uint64_t v) { digest(v); }
 void vf_reach(const char*) {}
 void vf_sched_point() { if (getenv("VF_SCHED_POINTS")) vf_yield(-3); }
